@@ -93,7 +93,7 @@ func checkC06(c *hx.Ctx) {
 		u.BuildAlphabet(1010, 1030)
 		unis = append(unis, u)
 	}
-	pc := hx.NewClient(hx.NewVersion(p, hx.VersionOpts{}))
+	pc := hx.NewClient(hx.NewVersion(p, hx.VersionOpts{ParserOpts: hx.StrictResolution()}))
 	hx.Parallel(nCases, 16, func(i int) {
 		r := hx.NewRng(seeds[i], "c06")
 		u := unis[i%len(unis)]
@@ -239,6 +239,39 @@ func checkC06(c *hx.Ctx) {
 				c.Count("rest_comparisons")
 			}
 		}
+		// ---- long-form DID of the anchored DID: an unknown version id / a time before the first operation is still an error
+		if i%4 == 0 && H[0].Label == "C" && H[0].Published() {
+			var init map[string]interface{}
+			_ = json.Unmarshal(H[0].Request, &init)
+			delete(init, "type")
+			long := hx.Namespace + ":" + u.Suffix + ":" + ref.B64(ref.MustJCS(init))
+			store := hx.NewOpStore()
+			var pubOnly []*ref.Op
+			for _, o := range H {
+				if o.Published() {
+					pubOnly = append(pubOnly, o)
+				}
+			}
+			store.Set(u.Suffix, ToAnchored(u.Suffix, pubOnly))
+			lenient := hx.NewClient(hx.NewVersion(p, hx.VersionOpts{})) // the long-form fallback parses the initial state at intake level
+			dh := dochandler.New(hx.Namespace, nil, lenient, &hx.RecWriter{}, processor.New("verif", store, lenient), hx.NopMetrics{})
+			if _, err := dh.ResolveDocument(long); err != nil {
+				c.Violation("C06 long-form DID of an anchored DID does not resolve at all: "+err.Error(), map[string]interface{}{"did": long, "history": replayOps(pubOnly)})
+				return
+			}
+			for _, opt := range []struct {
+				name string
+				o    document.ResolutionOption
+			}{{"unknown versionId", document.WithVersionID("no-such-reference")}, {"versionTime before the first operation", document.WithVersionTime(rfc3339(minT - 1))}} {
+				c.Eval()
+				if _, err := dh.ResolveDocument(long, opt.o); err == nil {
+					c.Violation("C06 ResolveDocument(long-form DID of an anchored DID, "+opt.name+") returned a document instead of an error: ["+histString(pubOnly)+"]",
+						map[string]interface{}{"did": long, "history": replayOps(pubOnly), "option": opt.name})
+					return
+				}
+				c.Count("longform_bad_version_rejected")
+			}
+		}
 		if i < 2 {
 			c.Sample(2, map[string]interface{}{"history": histString(H), "time_cuts": cuts, "id_cuts": len(ordered)})
 		}
@@ -247,6 +280,7 @@ func checkC06(c *hx.Ctx) {
 	c.Floor("inner_id_cuts", 200)
 	c.Floor("time_before_first_rejected", 50)
 	c.Floor("rest_comparisons", 10)
+	c.Floor("longform_bad_version_rejected", 20)
 }
 
 func countPub(ops []*ref.Op) int {
